@@ -11,7 +11,9 @@ PIPE = {"a": ["G:A", "R:A:pf", "R:A:an"], "b": ["G:B", "R:B:df", "R:B:bn"], "c":
         # the same input rendered under different literal limits (5 distinct values: Literal under 10 / 16, str under 3)
         "e": ["G:C", "R:C:d3", "R:C:df"], "f": ["G:C", "R:C:b16", "R:C:bn", "R:C:d3"],
         # short pipelines for the forced schedules: one render each, limits 3 / 16 / 10
-        "g": ["G:C", "R:C:d3"], "h": ["G:C", "R:C:b16"], "i": ["G:C", "R:C:df"]}
+        "g": ["G:C", "R:C:d3"], "h": ["G:C", "R:C:b16"], "i": ["G:C", "R:C:df"],
+        # a non-empty reference-path context (shared child, nested layout) in both threads
+        "j": ["G:E", "R:E:bN"], "k": ["G:E", "R:E:dN", "R:E:pf"]}
 
 
 def solo(name):
@@ -57,15 +59,15 @@ def run(chk, build):
     # forced schedules: one thread is stopped at its j-th yield point (constructor / generate() entries of the code generators,
     # entries of generate / merge_models) while the other pipeline runs to its end, then resumes.  Deterministic, replayable.
     sjobs = []
-    pairs = [("g", "h"), ("h", "g"), ("g", "i"), ("i", "h"), ("e", "f"), ("a", "c"), ("b", "d")] if tier == "quick" else list(itertools.permutations(PIPE, 2))
+    pairs = [("g", "h"), ("h", "g"), ("g", "i"), ("i", "h"), ("e", "f"), ("a", "c"), ("b", "d"), ("j", "k")] if tier == "quick" else list(itertools.permutations(PIPE, 2))
     for pa, pb in pairs:
         for j in range(1, 13 if tier == "quick" else 41):
             sjobs.append(((pa, pb), [[0, j], [1, 10 ** 6]]))
-    if tier != "quick":
-        for pa, pb in pairs:
-            for j in range(1, 25, 2):
-                for k in range(1, 25, 3):
-                    sjobs.append(((pa, pb), [[0, j], [1, k], [0, 10 ** 6]]))
+    # three segments: A stopped at its j-th point, B at its k-th, A runs to its end while B is still inside its own render
+    for pa, pb in ([("j", "k"), ("k", "j"), ("j", "j")] if tier == "quick" else pairs):
+        for j in (range(3, 8) if tier == "quick" else range(1, 25, 2)):
+            for k in (range(3, 8) if tier == "quick" else range(1, 25, 3)):
+                sjobs.append(((pa, pb), [[0, j], [1, k], [0, 10 ** 6]]))
     for (names, segs), res in clirun.parallel(scheduled, sjobs, workers=8):
         chk.count(key=("sched", names, json.dumps(segs)), sample={"threads": list(names), "schedule": segs} if len(chk.samples) < 4 else None)
         for i, n in enumerate(names):
